@@ -12,6 +12,7 @@
 From Coq Require Import List NArith Bool Arith Lia.
 From Sylt Require Import Syntax.Ast Syntax.Tok Parse.PrecTable Parse.Parser Parse.ParserProofs Parse.Layout
   Parse.LayoutSim Parse.ParserTotal.
+From Sylt Require Parse.SimGen.
 Import ListNotations.
 
 (* ------------------------------------------------------------------------------------------- *)
@@ -1115,4 +1116,99 @@ Proof.
     destruct G as [X|[X|X]]; try discriminate X; unfold orelq in X; cbn [is_old resrel] in X; try contradiction.
   - destruct o, o'; cbn [orel_new] in X; try contradiction. destruct X as [-> _]. reflexivity.
   - exact I.
+Qed.
+
+(* ------------------------------------------------------------------------------------------- *)
+(* whole files (module level), same fragment: same top-level statements up to EmptyStatements, or both rejected *)
+
+Section Module.
+Variable T : ptab.
+Hypothesis sane : bracket_sane T.
+Hypothesis TOK : total_ok T.
+
+Definition mrelF (r r' : res out) : Prop := r = Fuel \/ r' = Fuel \/ SimGen.mrel r r'.
+
+Lemma go_doomed_module f acc errs last c : errs <> [] ->
+  go T f (QModule acc errs last c) = Fuel \/ exists ce es, go T f (QModule acc errs last c) = Err ce es.
+Proof.
+  intros He. destruct (go_big f (QModule acc errs last c)) as (F & Hf & Hm).
+  pose proof (go_good T TOK F (QModule acc errs last c) I Hm) as G.
+  destruct (go T f (QModule acc errs last c)) as [o|ce es| |] eqn:H.
+  - exfalso. rewrite (go_ok_le T f F _ _ Hf H) in G. cbn [good] in G.
+    destruct o; cbn [Post] in G; try contradiction. destruct G as [X _]. exact (He X).
+  - right. eexists. eexists. reflexivity.
+  - left. reflexivity.
+  - exfalso. rewrite (go_mono_le T f F _ Hf) in G; rewrite H in *; [exact G|discriminate].
+Qed.
+
+Lemma mrelF_doomed f acc acc' errs errs' last last' c c' : errs <> [] -> errs' <> [] ->
+  mrelF (go T f (QModule acc errs last c)) (go T f (QModule acc' errs' last' c')).
+Proof.
+  intros D D'. destruct (go_doomed_module f acc errs last c D) as [->|(ce & es & ->)]; [left; reflexivity|].
+  destruct (go_doomed_module f acc' errs' last' c' D') as [->|(ce' & es' & ->)]; [right; left; reflexivity|].
+  right. right. exact I.
+Qed.
+
+Theorem module_relF : forall f acc acc' last last' c c',
+  SimGen.noempty acc = SimGen.noempty acc' -> rel false [] c c' ->
+  mrelF (go T f (QModule acc [] last c)) (go T f (QModule acc' [] last' c')).
+Proof.
+  induction f as [|f IH]; intros acc acc' last last' c c' HA R; [left; reflexivity|].
+  rewrite !go_S. cbn [step]. unfold step_module. rewrite <- (rel_token _ _ _ _ R).
+  assert (D : mrelF
+    (run (go T f) (ptry (outer_statement c) (fun '(s, c1) => call (QModule (acc ++ [s]) [] (consumed c1) c1))
+                     (fun c' es => call (QModule acc ([] ++ es) last (skip_until KNewline c')))))
+    (run (go T f) (ptry (outer_statement c') (fun '(s, c1) => call (QModule (acc' ++ [s]) [] (consumed c1) c1))
+                     (fun c' es => call (QModule acc' ([] ++ es) last' (skip_until KNewline c')))))).
+  { rewrite !run_ptry, !SimGen.run_outer.
+    pose proof (go_relF T sane TOK f false [] (QStmt c) (QStmt c') (or_intror (conj eq_refl R))) as G.
+    pose proof (go_uerr T TOK f (QStmt c)) as U. pose proof (go_uerr T TOK f (QStmt c')) as U'.
+    destruct (go T f (QStmt c)) as [o|ce es| |]; [| |left; reflexivity|].
+    - destruct (go T f (QStmt c')) as [o'|ce' es'| |]; [| |right; left; reflexivity|];
+        destruct G as [X|[X|X]]; try discriminate X; unfold orelq in X; cbn [is_old resrel] in X; try contradiction.
+      destruct o as [| | | | | | | | | | | | |st c1| |], o' as [| | | | | | | | | | | | |st' c1'| |];
+        cbn [orel_new] in X; try contradiction; try (right; right; exact I). destruct X as [E1 R1]. subst st'.
+      destruct (is_outer st).
+      + rewrite !run_call. apply IH; [rewrite !SimGen.noempty_app, HA; reflexivity|exact R1].
+      + rewrite !run_call. apply mrelF_doomed; discriminate.
+    - destruct (go T f (QStmt c')) as [o'|ce' es'| |]; [| |right; left; reflexivity|];
+        destruct G as [X|[X|X]]; try discriminate X; unfold orelq in X; cbn [is_old resrel] in X; try contradiction.
+      rewrite !run_call. cbn [app]. apply mrelF_doomed; [exact (U ce es eq_refl)|exact (U' ce' es' eq_refl)].
+    - destruct (go T f (QStmt c')) as [o'|ce' es'| |]; [| |right; left; reflexivity|];
+        destruct G as [X|[X|X]]; try discriminate X; unfold orelq in X; cbn [is_old resrel] in X; try contradiction.
+      right. right. exact I. }
+  destruct (token c) as [| | | | | |k|] eqn:Tk; try exact D.
+  - destruct k; try exact D. rewrite !run_call. apply IH; [exact HA|].
+    apply (skip_plain_tk false [] c c' _ R Tk); reflexivity.
+  - right. right. cbn [run ok SimGen.mrel].
+    destruct (comment_in _ c), (comment_in _ c'); rewrite ?SimGen.noempty_app;
+      cbn [SimGen.noempty filter SimGen.is_empty_stmt negb]; rewrite ?app_nil_r; exact HA.
+Qed.
+
+End Module.
+
+(* C14 nl_in_brackets for whole files of the fragment: with enough fuel on both sides, two files that differ only
+   by comments and by line breaks inside brackets are both accepted, with the same top-level statements up to
+   EmptyStatements, or both rejected *)
+Theorem nl_in_brackets_program T : bracket_sane T -> total_ok T ->
+  forall ts ts' f, insignificant_diff ts ts' -> frag ts -> frag ts' ->
+  (match ts with TComment :: _ => False | _ => True end) ->
+  (match ts' with TComment :: _ => False | _ => True end) ->
+  parse_fuel ts <= f -> parse_fuel ts' <= f ->
+  match parse_program T f ts, parse_program T f ts' with
+  | Ok (ss, _), Ok (ss', _) => SimGen.noempty ss = SimGen.noempty ss'
+  | Err _ _, Err _ _ => True
+  | _, _ => False
+  end.
+Proof.
+  intros sane TOK ts ts' f He F F' Hd Hd' Hf Hf'.
+  pose proof (init_rel ts ts' He F F' Hd Hd') as R.
+  pose proof (module_relF T sane TOK f [] [] 0 0 (init ts) (init ts') eq_refl R) as G.
+  pose proof (parse_program_total T TOK ts f Hf) as S1. pose proof (parse_program_total T TOK ts' f Hf') as S2.
+  unfold parse_program in *.
+  destruct (go T f (QModule [] [] 0 (init ts))) as [o|ce es| |], (go T f (QModule [] [] 0 (init ts'))) as [o'|ce' es'| |];
+    cbn [as_Ss ParserTotal.settled] in *; try contradiction;
+    destruct G as [X|[X|X]]; try discriminate X; unfold SimGen.mrel in X; try contradiction; try exact I;
+    try (destruct o; contradiction).
+  destruct o, o'; try contradiction. exact X.
 Qed.
